@@ -663,3 +663,67 @@ def check_validation_predicate(facts, rep):
                       ' - the validation under the write lock misses a conflict and two workers can commit mutually cyclic pivots', where=b.where())
     else:
         rep.ok('E5.L7-validation-covers-all-marks', inst, 'enqueue iff is_candidate(j) || is_occupied(j), for k in loc.count()..pivots.count()')
+
+
+def check_candidate_predicate(facts, rep):
+    """L8: a pivot candidate is a unit, for every PivotCondition. The triangular solver divides by the pivots and the Schur
+    step deletes the rows / columns of the pivots it was given: with a non-unit "pivot" a / (a) summand silently disappears
+    (or `inv().unwrap()` panics). PivotCondition::is_cand is read as a decision table over the atoms is_pm_one(r),
+    is_unit(r) and the weight comparison and folded over every consistent assignment (±1 implies unit): an accepted
+    entry must be a unit; `One` must accept exactly ±1, `AnyUnit` exactly the units, `Weight` only units within the bound."""
+    import re
+    from symex import show
+    from dtree import DTree, Stuck
+    fn = [b for k, b in facts.bodies.items() if k.endswith('sparse::pivot::PivotCondition::is_cand')]
+    adt = facts.adts.get('yui_matrix::sparse::pivot::PivotCondition')
+    if len(fn) != 1 or adt is None:
+        rep.indet('E5.L8: PivotCondition::is_cand not found')
+        return
+    b = fn[0]
+    rep.saw(b)
+    dt = DTree(facts)
+
+    def sk_(t):
+        return re.sub(r'#(?:i\d+:)?\d+\.\d+', '', show(t, -1000)).replace('&', '').replace('*', '')
+    n = 0
+    bad = []
+    for vi, v in enumerate(adt['variants']):
+        d = int(v.get('discr', vi))
+        for P in (0, 1):
+            for U in (0, 1):
+                if P and not U:
+                    continue
+                for W in (0, 1):
+                    def atom(t, ev, d=d, P=P, U=U, W=W):
+                        s = sk_(t)
+                        if s == 'discr(arg1)':
+                            return (d,)
+                        if t[0] == 'call' and len(t[2]) == 1 and sk_(t[2][0]) == 'arg2':
+                            nm = t[1].split('::')[-1]
+                            if nm == 'is_pm_one':
+                                return (P,)
+                            if nm == 'is_unit':
+                                return (U,)
+                        if t[0] == 'bin' and t[1] in ('Le', 'Lt', 'Ge', 'Gt') and ('c_weight(arg2)' in s or re.search(r'\barg3\b', s)) and 'arg1.' in s:
+                            return (W,)
+                        return None
+                    try:
+                        got, _ = dt.decide(b.defp, {}, atom)
+                    except Stuck as e:
+                        rep.indet('E5.L8: PivotCondition::is_cand outside the recognised fragment (%s): %s' % (v['name'], str(e)[:120]))
+                        return
+                    got = bool(got)
+                    n += 1
+                    want = {'One': bool(P), 'AnyUnit': bool(U), 'Weight': bool(U and W)}.get(v['name'])
+                    if got and not U:
+                        bad.append('%s accepts a non-unit entry (weight test %s)' % (v['name'], bool(W)))
+                    elif want is not None and got != want:
+                        bad.append('%s answers %s for an entry with is_pm_one = %s, is_unit = %s, within weight = %s' % (v['name'], got, bool(P), bool(U), bool(W)))
+    inst = 'PivotCondition::is_cand|an accepted entry is a unit (One: exactly ±1; AnyUnit: exactly the units; Weight: units within the bound)'
+    if bad:
+        rep.violation('E5.L8-candidate-is-unit', inst,
+                      'PivotCondition::is_cand: %s - the triangular solver divides by the pivots and the Schur step deletes their rows and columns, so a non-unit pivot silently drops a torsion summand R/(a) from the reduced complex (or panics in inv().unwrap())' % '; '.join(sorted(set(bad))[:2]),
+                      where=b.where())
+    else:
+        rep.ok('E5.L8-candidate-is-unit', inst, '%d points of the decision table folded' % n)
+    rep.floor('E5.L8 decision-table points of is_cand', n, 18)
